@@ -100,14 +100,14 @@ def rows_of(df):
     return out
 
 
-def execute(conds, cfg, weakly, budget, multi, chooser, sig=None, queries=None, calls=((1, 2, 3), (2,))):
+def execute(conds, cfg, weakly, budget, multi, chooser, sig=None, queries=None, calls=((1, 2, 3), (2,)), hash_order=1):
     """One execution: a call with three queries and a later call (with one of them, or with all of them again), on the same
     manager, under the environment answers dictated by `chooser`."""
     sig = sig or scopes.SIG3
     from inference.inference_manager import InferenceManager
 
     system, pm = drive.CONFIGS[cfg]
-    e = env.Env(chooser, with_preptime=bool(budget["total_timeout"]))
+    e = env.Env(chooser, with_preptime=bool(budget["total_timeout"]), hash_order=hash_order)
     obs = []
     with env.installed(e):
         mgr = InferenceManager(drive.mkbb(sig, conds), system, pmaxsat_solver=pm or "rc2", weakly=weakly)
@@ -117,7 +117,7 @@ def execute(conds, cfg, weakly, budget, multi, chooser, sig=None, queries=None, 
                     df = mgr.inference(mkq(keys, queries), multi_inference=multi, **budget)
                     obs.append(rows_of(df))
                 except BaseException as ex:  # noqa: BLE001
-                    if isinstance(ex, (KeyboardInterrupt, SystemExit, MemoryError)):
+                    if isinstance(ex, (KeyboardInterrupt, SystemExit, MemoryError, sched.ReplayDiverged)):
                         raise
                     obs.append(drive.exc_obs(ex))
     return obs, list(e.events)
@@ -159,7 +159,10 @@ class C14(Check):
             "row is flagged (inference_timed_out or preprocessing_timed_out, answer False) or carries the answer of a run "
             "without budgets; own keys. distinct_nontrivial = distinct (case, deviation) executions in which a deviation "
             "actually changed the observation (some row flagged).")
-    assumptions = ["expiry is modelled at the granularity of the code's own observations of the deadline / solver verdicts; "
+    assumptions = ["the z3 back-ends iterate over sets of Conditional_z3 objects hashed by address; the harness owns that order "
+                   "(small integer hashes in order of first use; ascending, and for the four-atom family also descending) - a "
+                   "replayed prefix that does not fit its execution is a harness error (exit 2), never a violation",
+                   "expiry is modelled at the granularity of the code's own observations of the deadline / solver verdicts; "
                    "z3's internal timeout is never armed (Optimize.set(timeout) is recorded, not forwarded)",
                    "operators that never look at the deadline have 0 observation points (reported, not a violation)"]
     audit_tasks = 4
@@ -183,7 +186,8 @@ class C14(Check):
                 if cfg in ("p", "z"):
                     continue   # they never look at the deadline
                 for budget in ((BUDGETS[1], BUDGETS[4]) if quick else (BUDGETS[1], BUDGETS[4], BUDGETS[7])):
-                    out.append((conds, cfg, False, budget, False, "four"))
+                    for order in ((1, -1) if cfg.endswith("z3") else (1,)):   # iteration order of the z3 back-ends' sets
+                        out.append((conds, cfg, False, budget, False, "four", order))
         return out
 
     def run(self, task):
@@ -193,8 +197,8 @@ class C14(Check):
         sig = scopes.SIG4 if four else scopes.SIG3
         queries = select_queries(sig, conds, weakly) if four else QUERIES
         calls = (tuple(k for k, _ in queries),) * 2 if four else ((1, 2, 3), (2,))
-        kw = dict(sig=sig, queries=queries, calls=calls)
-        case0 = {"sig": sig, "conds": [forms.ctxt(x) for x in conds], "conds_f": conds, "config": cfg, "weakly": weakly,
+        kw = dict(sig=sig, queries=queries, calls=calls, hash_order=task[6] if four else 1)
+        case0 = {"hash_order": kw["hash_order"], "sig": sig, "conds": [forms.ctxt(x) for x in conds], "conds_f": conds, "config": cfg, "weakly": weakly,
                  "budget": budget, "multi": multi, "tname": "multi" if multi else "seq", "queries": [forms.ctxt(q) for _k, q in queries],
                  "queries_f": [[k, q] for k, q in queries], "calls": [list(x) for x in calls]}
         base_obs, _ = execute(conds, cfg, weakly, dict(total_timeout=0, preprocessing_timeout=0, inference_timeout=0), False, sched.Chooser(), **kw)
@@ -241,7 +245,8 @@ class C14(Check):
         conds = [opsem.tup(x) for x in cs["conds_f"]]
         kw = {}
         if "queries_f" in cs:
-            kw = dict(sig=cs["sig"], queries=[(k, opsem.tup(q)) for k, q in cs["queries_f"]], calls=[tuple(x) for x in cs["calls"]])
+            kw = dict(sig=cs["sig"], queries=[(k, opsem.tup(q)) for k, q in cs["queries_f"]], calls=[tuple(x) for x in cs["calls"]],
+                      hash_order=cs.get("hash_order", 1))
         base_obs, _ = execute(conds, cs["config"], cs["weakly"], dict(total_timeout=0, preprocessing_timeout=0, inference_timeout=0),
                               False, sched.Chooser(), **kw)
         obs, events = execute(conds, cs["config"], cs["weakly"], cs["budget"], cs["multi"], sched.Chooser(cs["choices"]), **kw)
